@@ -224,8 +224,8 @@ def generate(impls_rs, key_rs, tree_rs):
             return one("child" + tag)
         return " ".join(one(f"child{tag}{i}") for i in range(n))
 
-    def rewrite_indexed(b, method, per_index):
-        """`self[index].m(keys, x)` / `self.<i>.m(keys, x)` -> pseudo call `at_m(<index>)`"""
+    def rewrite_indexed(b, method, per_index, fieldmap=None):
+        """`self[index].m(keys, x)` / `self.<i>.m(keys, x)` / `self.<field>.m(keys, x)` -> pseudo call `at_m(<index>)`"""
         def go(e):
             if isinstance(e, tuple):
                 if e and e[0] == "mcall" and e[2] == method:
@@ -234,15 +234,18 @@ def generate(impls_rs, key_rs, tree_rs):
                         return ("call", ("path", ["at_" + method]), [go(recv[2])])
                     if recv[0] == "field" and recv[1] == ("path", ["self"]) and recv[2].isdigit():
                         return ("call", ("path", [f"at_{method}_{recv[2]}"]), [("num", int(recv[2]))])
+                    if recv[0] == "field" and recv[1] == ("path", ["self"]) and fieldmap and recv[2] in fieldmap:
+                        i = fieldmap[recv[2]]
+                        return ("call", ("path", [f"at_{method}_{i}"]), [("num", i)])
                 return tuple(go(x) for x in e)
             if isinstance(e, list):
                 return [go(x) for x in e]
             return e
         return go(b)
 
-    def value_fn(lean, body, method, n_children, extra_sig="", doc=""):
+    def value_fn(lean, body, method, n_children, extra_sig="", doc="", fieldmap=None, same_child=False):
         tag, mutating, res_ty, tparams = OPS[method]
-        b = rewrite_indexed(body, method, n_children)
+        b = rewrite_indexed(body, method, n_children, fieldmap)
         tb = tables(0, dict(consts, N="N"), dict(key_fns, **{"Traversal::increment": ("Traversal.increment", "pure")}))
         tb.methods = VAL_METHODS
         tb.effects = {("mcall", "keys", "next"): {"fmt": "(keysNext keys {0})", "pair": "keys", "err": "Traversal"}}
@@ -251,6 +254,8 @@ def generate(impls_rs, key_rs, tree_rs):
         anytag = "AnyRes" if tag in ("Ref", "Mut") else None
         if n_children is None:
             names = {"at_" + method: "child" + tag}
+        elif same_child:
+            names = {f"at_{method}_{i}": f"child{tag}" for i in range(n_children)}
         else:
             names = {f"at_{method}_{i}": f"child{tag}{i}" for i in range(n_children)}
         for pseudo, child in names.items():
@@ -260,7 +265,7 @@ def generate(impls_rs, key_rs, tree_rs):
                 tb.effects[("call", pseudo)] = {"fmt": f"(applyAtR {child} self {{0}} keys)", "pval": True, "ret": anytag}
         tb.structs = {"Self": "List C"}
         sig = (f"{{K C : Type}} {tparams}(keysNext : K → KeyLookup → Except Traversal Nat × K) {extra_sig}"
-               f"{child_sig(tag, mutating, res_ty, n_children)} (self : List C) (keys : K)")
+               f"{child_sig(tag, mutating, res_ty, None if same_child else n_children)} (self : List C) (keys : K)")
         return translate_fn(b, lean, sig, res_ty, tb, "panic", mut_self=mutating, doc=doc)
 
     for trait, hdr_a in (("TreeSerialize", r"<T: TreeSerialize, const N: usize> TreeSerialize for \[T; N\]"),
@@ -283,6 +288,38 @@ def generate(impls_rs, key_rs, tree_rs):
                 _s, t_fn = M.find_fn(body, method)
                 out += value_fn(f"tuple{n}.{method}", M.parse_block(t_fn), method, n,
                                 doc=f"`<(T0, …) as {trait}>::{method}` for the {n}-tuple")
+    # Range / RangeInclusive / RangeFrom / RangeTo: struct fields `start` / `end` (one element type: one child function)
+    TRAITS = (("TreeSerialize", "<T: TreeSerialize> TreeSerialize for {ty}<T>", ["serialize_by_key"]),
+              ("TreeDeserialize", "<'de, T: TreeDeserialize<'de>> TreeDeserialize<'de> for {ty}<T>", ["deserialize_by_key"]),
+              ("TreeAny", "<T: TreeAny> TreeAny for {ty}<T>", ["ref_any_by_key", "mut_any_by_key"]))
+    for rust, fmap in (("Range", {"start": 0, "end": 1}), ("RangeInclusive", None), ("RangeFrom", {"start": 0}),
+                       ("RangeTo", {"end": 0})):
+        for trait, hdr_t, methods in TRAITS:
+            hdr = re.escape(hdr_t.format(ty=rust))
+            try:
+                M.find_impl(src, hdr)
+            except Unsupported:
+                if rust == "RangeInclusive" and trait != "TreeSerialize":
+                    continue        # `RangeInclusive` has no public fields: only TreeKey and TreeSerialize exist
+                raise
+            for method in methods:
+                sig_, b = fn_in(src, hdr, method)
+                if rust == "RangeInclusive":
+                    # `self.start()` / `self.end()` accessors
+                    def acc(e):
+                        if isinstance(e, tuple):
+                            if e and e[0] == "mcall" and e[1] == ("path", ["self"]) and e[2] in ("start", "end") and not e[3]:
+                                return ("field", ("path", ["self"]), e[2])
+                            return tuple(acc(x) for x in e)
+                        if isinstance(e, list):
+                            return [acc(x) for x in e]
+                        return e
+                    b = acc(b)
+                    fm = {"start": 0, "end": 1}
+                else:
+                    fm = fmap
+                out += value_fn(f"{rust}.{method}", b, method, len(fm), fieldmap=fm, same_child=True,
+                                doc=f"`<{rust}<T> as {trait}>::{method}` (fields as a list: {sorted(fm, key=fm.get)})")
     # Option<T>: `self.as_ref().ok_or(Absent(0))?.f(keys, x)` — the unwrapped value is bound to `inner`, the child call is a
     # parameter, and for the `&mut self` functions the (possibly updated) value is put back
     def option_fn(method, trait_hdr):
